@@ -18,6 +18,21 @@ CLAIMED = {
                   "typestate rule for attach-before-initialise",
         design="DESIGN.md §4 C03, appendix B.3-B.4",
     ),
+    "C05": dict(
+        level="other",
+        text="Context-sensitive taint analysis over every XML template that reaches the parser (44 oxml factory templates and the "
+             "8 chart writers): each hole is located with its lexical context (double/single-quoted attribute value, character "
+             "data) by an XML tokenizer run over the abstractly evaluated template; its filler is classified by backward "
+             "provenance through locals, tuple components, fields, properties, returns and parameters to every call site up to "
+             "public API parameters, file names and strings read back from the document. Numeric-by-construction, constants, "
+             "enum tokens, xsd:ID values and generated strings are safe; everything else needs the sanitiser its context requires "
+             "(escape() for character data, escape with a quote map for attribute values); unclassifiable fillers are reported "
+             "(deny by default). 173 holes decided; the 20 genuine defects found on the pinned tree were repaired in /repo. "
+             "NOT decided: that the reader returns the identical string (run-time round trip).",
+        technique="static analysis: abstract string evaluation + XML tokenizer for hole contexts; interprocedural backward "
+                  "provenance (taint) over a typed call graph with sanitiser/context matching",
+        design="DESIGN.md §4 C05, appendix B.5",
+    ),
     "C07": dict(
         level="other",
         text="The eight chart XML writers are specialised to each of the 29 chart types and evaluated abstractly; series and "
@@ -82,7 +97,7 @@ CLAIMED = {
 _NOT_BUILT = "decidable structural clause designed in DESIGN.md but its checker is not built yet"
 
 NOT_APPLICABLE = {
-    "C01": _NOT_BUILT, "C02": _NOT_BUILT, "C04": _NOT_BUILT, "C05": _NOT_BUILT,
+    "C01": _NOT_BUILT, "C02": _NOT_BUILT, "C04": _NOT_BUILT,
     "C06": _NOT_BUILT, "C08": _NOT_BUILT, "C09": _NOT_BUILT,
     "C12": _NOT_BUILT, "C13": _NOT_BUILT, "C14": _NOT_BUILT, "C15": _NOT_BUILT,
     "C16": _NOT_BUILT, "C17": _NOT_BUILT, "C18": _NOT_BUILT,
